@@ -254,6 +254,8 @@ class Tr:
             if node.attr in NODE_ATTRS:
                 f, fty = NODE_ATTRS[node.attr]
                 return pre + [(self_t, f"(Lit.nodeAt {ty[1]})")], f"{self_t}.{f}", fty
+            if node.attr == "children":
+                return pre + [(self_t, f"(Lit.nodeAt {ty[1]})")], f"{self_t}.children", "children"
         if ty == "child" and node.attr == "values":
             return pre, f"{t}.values", "values"
         if isinstance(ty, tuple) and ty[0] == "enum" and node.attr == "name":
@@ -518,6 +520,21 @@ class Tr:
             a = " ".join(self.block(s.body, "(pure ())").split())   # one line: match arms are column-sensitive
             self.env = saved
             return after(f"(match {t} with | some {name} => {a} | none => pure ())")
+        if isinstance(s, ast.If) and isinstance(s.test, ast.Compare) and len(s.test.ops) == 1 \
+                and isinstance(s.test.ops[0], ast.Is) and isinstance(s.test.left, ast.Name) \
+                and isinstance(s.test.comparators[0], ast.Constant) and s.test.comparators[0].value is None \
+                and s.test.left.id in self.env and isinstance(self.env[s.test.left.id][1], tuple) \
+                and self.env[s.test.left.id][1][0] == "opt" and not s.orelse and self.terminates(s.body):
+            # `if x is None: <leave>` with an Optional local: in the rest the name denotes the value
+            name = s.test.left.id
+            t, ty = self.env[name]
+            saved = dict(self.env)
+            a = " ".join(self.block(s.body, None).split())
+            self.env = dict(saved)
+            self.env[name] = (name, ty[1])
+            b = " ".join(self.block(rest, fallthrough).split())
+            self.env = saved
+            return f"(match {t} with | none => {a} | some {name} => {b})"
         if isinstance(s, ast.If):
             pre, c, _ = self.truth(s.test)
             saved = dict(self.env)
